@@ -49,11 +49,27 @@ def modL(t):
     hit = e.run_cache.get(key)
     if hit is not None and hit[0].eq(t):
         return hit[1]
+    # canonical form modulo L: replace every known remainder by the expression it is the remainder of and normalise;
+    # two arguments with the same canonical form are congruent mod L and get the same remainder variable, so chains
+    # like ((a mod L) + b) mod L and (a + b) mod L are merged syntactically (no solver work)
+    canon_of = e.run_cache.setdefault('modL_canon_of', {})
+    subs = [(rv, cv) for (rv, cv) in canon_of.values()]
+    canon = z3.simplify(z3.substitute(t, *subs)) if subs else z3.simplify(t)
+    by_canon = e.run_cache.setdefault('modL_by_canon', {})
+    hit2 = by_canon.get(canon.get_id())
+    if hit2 is not None and hit2[0].eq(canon):
+        r = hit2[1]
+        q = e.fresh_int('qL')
+        e.add(t == q * L + r)                      # still a fact about this particular argument
+        e.run_cache[key] = (t, r)
+        return r
     q = e.fresh_int('qL')
     r = e.fresh_int('rL')
     e.add(z3.And(t == q * L + r, r >= 0, r < L))
     e.run_cache[key] = (t, r)
     rem[r.get_id()] = r
+    canon_of[r.get_id()] = (r, canon)
+    by_canon[canon.get_id()] = (canon, r)
     return r
 
 
@@ -315,12 +331,33 @@ def point_sub(p, q):
     return enc_point(modL(dlog_point(p) - dlog_point(q)))
 
 
+def _ub_bits(b):
+    """syntactic upper bound (in bits) of the little-endian value of 32 scalar bytes"""
+    e = eng()
+    hit = _src(e).get(_key(b))
+    if hit is not None and not isinstance(hit[1], int) and hit[1].get_id() in e.run_cache.get('modL_remainders', {}):
+        return 253                              # reduced mod L
+    if isinstance(b, bytes):
+        return max(int.from_bytes(b, 'little').bit_length(), 1)
+    top = b.b[31]
+    if isinstance(top, int):
+        return 248 + max(top.bit_length(), 1)
+    for key, val in e.run_cache.items():
+        if isinstance(key, tuple) and len(key) == 4 and key[0] == 'bitop' and key[1] == 'and' and key[3] == 0x7f:
+            if isinstance(val[1], SymInt) and val[1].t.eq(top):
+                return 255                      # clamp_scalar cleared bit 255
+    return 256
+
+
 def scalar_add(a, b):
     _bytes32(a, 'scalar')
     _bytes32(b, 'scalar')
     if _opaque():
         return _opq('scalar_add', a, b)
-    return scalar_bytes(modL(_wrap256(scalar_int(a) + scalar_int(b))))
+    t = scalar_int(a) + scalar_int(b)
+    if max(_ub_bits(a), _ub_bits(b)) + 1 <= 256:
+        return scalar_bytes(modL(t))            # the 32-byte addition cannot wrap
+    return scalar_bytes(modL(_wrap256(t)))
 
 
 def scalar_sub(a, b):
@@ -329,7 +366,10 @@ def scalar_sub(a, b):
     if _opaque():
         return _opq('scalar_sub', a, b)
     # libsodium: add(a, negate(b)), the 32-byte addition wraps mod 2^256 before the reduction
-    return scalar_bytes(modL(_wrap256(scalar_int(a) + zi(modL(-scalar_int(b))))))
+    t = scalar_int(a) + zi(modL(-scalar_int(b)))
+    if _ub_bits(a) + 1 <= 256:
+        return scalar_bytes(modL(t))
+    return scalar_bytes(modL(_wrap256(t)))
 
 
 def scalar_mul(a, b):
@@ -434,8 +474,11 @@ class XorShortcut:
                     return False
             return real(b1, b2)
         F.bytes_are_same = bytes_are_same
+        self.real_amhl = self.pkg.AMHL.bytes_are_same      # imported by name into AMHL.py
+        self.pkg.AMHL.bytes_are_same = bytes_are_same
         return self
 
     def __exit__(self, *a):
         self.pkg.functions.bytes_are_same = self.real
+        self.pkg.AMHL.bytes_are_same = self.real_amhl
         return False
